@@ -207,6 +207,7 @@ pub fn run_target(syntax: &str, base: Option<&str>, data: &[u8], c: Catcher) -> 
     use sophia_turtle::parser::{gnq, gtrig, nq, nt, trig, turtle};
     let mut rep = Report::default();
     let base: Option<Iri<String>> = base.and_then(|b| Iri::new(b.to_string()).ok());
+    let base_given = base.is_some();
     let strict = !is_generalized(syntax);
     let r = {
         let rep = &mut rep;
@@ -233,5 +234,193 @@ pub fn run_target(syntax: &str, base: Option<&str>, data: &[u8], c: Catcher) -> 
         let key = format!("panic/{}", site_key(&p));
         problem(&mut rep, &key, format!("parser panicked: {p}"));
     }
+    // refine the keys of invalid-term problems with the trigger found in the *input document*,
+    // so that a known finding only covers the construct that is known to cause it
+    let had_base = base_given;
+    for p in rep.problems.iter_mut() {
+        if let Some(t) = trigger(syntax, had_base, data, &p.0) {
+            p.0 = format!("{}/{t}", p.0);
+        }
+    }
     rep
+}
+
+/// Trigger class of an invalid-term problem, computed from the input document only.
+/// `None`: no refinement for this (key, syntax).
+pub fn trigger(syntax: &str, had_base: bool, data: &[u8], key: &str) -> Option<&'static str> {
+    let text = String::from_utf8_lossy(data);
+    let iri_like = key == "invalid-term/iri/malformed" || key == "invalid-term/iri/relative" || key == "invalid-term/datatype";
+    let turtle_like = matches!(syntax, "turtle" | "trig" | "gtrig");
+    if iri_like && turtle_like {
+        if syntax == "gtrig" && !had_base {
+            // rio_turtle's GTriGParser validates no IRI at all without a base
+            return Some("no-base");
+        }
+        // rio_turtle never validates the IRI obtained by expanding a prefixed name (known);
+        // an IRIREF written in the document is validated by rio (oxiri): if sophia's validator
+        // rejects one of those, validator and parser disagree, which is a different defect
+        return Some(if has_iriref_rejected_by_validator(&text) { "iriref-rejected-by-validator" } else { "pname-expansion" });
+    }
+    if iri_like && syntax == "xml" {
+        // rio_xml expands element / attribute names with namespace IRIs it never validates, accepts
+        // ill-formed names (quick-xml is lenient) and yields relative references unresolved when no
+        // base is known: several third-party root causes that cannot be told apart reliably from the
+        // document, so these keys are not refined (the known findings for them are broad)
+        let _ = (has_bad_xmlns(&text), has_ill_formed_tag(&text));
+        return None;
+    }
+    if key == "invalid-term/bnode_id" && turtle_like {
+        return Some(if label_dot_nonascii(&text) { "label-dot-nonascii" } else { "other" });
+    }
+    if key == "invalid-term/bnode_id" && syntax == "xml" {
+        return Some(if nodeid_trailing_dot(&text) { "nodeid-trailing-dot" } else { "other" });
+    }
+    None
+}
+
+/// some `<...>` token of the document (outside string literals, roughly) that rio's IRI parser
+/// (oxiri) accepts but the toolkit's own IRI-reference validator rejects
+fn has_iriref_rejected_by_validator(text: &str) -> bool {
+    let mut in_string: Option<char> = None;
+    let mut chars = text.char_indices().peekable();
+    while let Some((i, c)) = chars.next() {
+        match in_string {
+            Some(q) => {
+                if c == '\\' {
+                    chars.next();
+                } else if c == q {
+                    in_string = None;
+                }
+            }
+            None => match c {
+                '"' | '\'' => in_string = Some(c),
+                '#' => {
+                    // comment: skip to end of line
+                    for (_, d) in chars.by_ref() {
+                        if d == '\n' || d == '\r' {
+                            break;
+                        }
+                    }
+                }
+                '<' => {
+                    let rest = &text[i + 1..];
+                    if rest.starts_with('<') {
+                        continue; // quoted triple delimiter
+                    }
+                    if let Some(end) = rest.find(|d: char| d == '>' || d == '<' || d.is_whitespace()) {
+                        if rest[end..].starts_with('>') {
+                            let body = &rest[..end];
+                            if !body.contains('\\') && IriRef::new(body).is_err() && oxiri::IriRef::parse(body).is_ok() {
+                                return true;
+                            }
+                        }
+                    }
+                }
+                _ => {}
+            },
+        }
+    }
+    false
+}
+
+/// a backslash followed by one of the PN_LOCAL_ESC characters (prefixed name with an escaped local part)
+#[allow(dead_code)]
+fn has_escaped_local(text: &str) -> bool {
+    let b = text.as_bytes();
+    b.windows(2).any(|w| w[0] == b'\\' && b"_~.-!$&'()*+,;=/?#@%".contains(&w[1]))
+}
+
+/// some xmlns / xmlns:p attribute whose value is not an absolute IRI
+fn has_bad_xmlns(text: &str) -> bool {
+    let mut rest = text;
+    while let Some(i) = rest.find("xmlns") {
+        rest = &rest[i + 5..];
+        let Some(eq) = rest.find('=') else { return false };
+        // only a (possibly prefixed) attribute name may sit between "xmlns" and '='
+        if rest[..eq].chars().any(|c| c.is_whitespace() && c != ' ') && rest[..eq].trim().contains(' ') {
+            continue;
+        }
+        let after = rest[eq + 1..].trim_start();
+        let Some(q) = after.chars().next().filter(|c| *c == '"' || *c == '\'') else { continue };
+        let body = &after[1..];
+        let Some(end) = body.find(q) else { return true };
+        if Iri::new(&body[..end]).is_err() {
+            return true;
+        }
+    }
+    false
+}
+
+/// a tag in which another '<' occurs outside quoted attribute values, or whose element /
+/// attribute names contain characters that no XML Name may contain (quick-xml is lenient; the
+/// name is then expanded with its namespace into an IRI that nobody validates)
+fn has_ill_formed_tag(text: &str) -> bool {
+    let b = text.as_bytes();
+    let mut i = 0;
+    while i < b.len() {
+        if b[i] == b'<' && i + 1 < b.len() && b[i + 1] != b'?' && b[i + 1] != b'!' {
+            let mut j = i + 1;
+            let mut quote: Option<u8> = None;
+            while j < b.len() {
+                let c = b[j];
+                match quote {
+                    Some(q) if c == q => quote = None,
+                    Some(_) => {}
+                    None => match c {
+                        b'"' | b'\'' => quote = Some(c),
+                        b'>' => break,
+                        b'<' | b'{' | b'}' | b'|' | b'^' | b'`' | b'\\' | b'[' | b']' | b'(' | b')' | b'%' | b'#' | b'@' | b'!' | b'$' | b'&' | b'*' | b'+' | b',' | b';' | b'~' => return true,
+                        _ => {}
+                    },
+                }
+                j += 1;
+            }
+            if quote.is_some() {
+                return true;
+            }
+            i = j;
+        }
+        i += 1;
+    }
+    false
+}
+
+/// `_:label.` immediately followed by a non-ASCII character
+fn label_dot_nonascii(text: &str) -> bool {
+    let mut rest = text;
+    while let Some(i) = rest.find("_:") {
+        rest = &rest[i + 2..];
+        let mut prev_dot = false;
+        for c in rest.chars() {
+            if c == '.' {
+                prev_dot = true;
+            } else if prev_dot && !c.is_ascii() {
+                return true;
+            } else if c.is_whitespace() || matches!(c, '<' | '>' | '"' | ';' | ',' | '(' | ')' | '[' | ']' | '{' | '}') {
+                break;
+            } else {
+                prev_dot = false;
+            }
+        }
+    }
+    false
+}
+
+/// an rdf:nodeID attribute whose value ends with '.'
+fn nodeid_trailing_dot(text: &str) -> bool {
+    let mut rest = text;
+    while let Some(i) = rest.find("nodeID") {
+        rest = &rest[i + 6..];
+        let after = rest.trim_start();
+        let Some(after) = after.strip_prefix('=') else { continue };
+        let after = after.trim_start();
+        let Some(q) = after.chars().next().filter(|c| *c == '"' || *c == '\'') else { continue };
+        let body = &after[1..];
+        if let Some(end) = body.find(q) {
+            if body[..end].ends_with('.') {
+                return true;
+            }
+        }
+    }
+    false
 }
